@@ -489,7 +489,6 @@ def boundary_values(g: Gen, d):
         hi = np.asarray(d["high"], dtype=np.float64).reshape(shape)
         out += [("at-low", lo.astype(g.ft)), ("at-high", jnp.asarray(hi.astype(g.ft))),
                 ("at-low-list", lo.tolist()), ("nan", np.full(shape, NAN, dtype=g.ft))]
-        out.pop(7)      # an oversized integer is only handed to index spaces (see module docstring)
         if lo.size:
             below = np.asarray([g.next_down(x) if np.isfinite(x) else x for x in lo.reshape(-1)]).reshape(shape)
             above = np.asarray([g.next_up(x) if np.isfinite(x) else x for x in hi.reshape(-1)]).reshape(shape)
